@@ -174,6 +174,13 @@ func (x *Exec) call(st *State, site ssa.Value, cc *ssa.CallCommon, fnVal Val, ar
 		key := x.calleeKey(st, fr, cc)
 		if top := st.frames[0]; top == fr && top.contract != nil && top.contract.Relies[key] != nil && !x.lemmaMode {
 			rs := top.contract.Relies[key]
+			if rs.PreSnap != "" {
+				// the state in which the call is made
+				if fr.snaps == nil {
+					fr.snaps = map[string]map[string]Term{}
+				}
+				fr.snaps[rs.PreSnap] = st.snapshot()
+			}
 			k1 := k
 			k = func(st2 *State, res Val) {
 				x.applyRely(st2, rs)
@@ -276,7 +283,9 @@ func (x *Exec) callFunc(st *State, cc *ssa.CallCommon, fn *ssa.Function, args []
 	x.logCall(st, key, args, ats)
 	x.note(&x.trusted, "extern "+key+": assumed not to write the modelled heap; result unconstrained")
 	st.bumpWM()
-	k(st, x.freshResult(st, "r."+fn.Name(), resT))
+	res := x.freshResult(st, "r."+fn.Name(), resT)
+	x.logRet(st, key, res, resT)
+	k(st, res)
 }
 
 func (x *Exec) invoke(st *State, cc *ssa.CallCommon, recv Term, args []Val, resT types.Type, k func(st *State, res Val)) {
@@ -432,7 +441,7 @@ func paramNames(c *Contract, fn *ssa.Function, sig *types.Signature) ([]string, 
 			n := p.Name()
 			// a func contract may fix the names it uses for the parameters (by position): renaming a
 			// parameter or receiver in the code then does not touch the contract
-			if c != nil && c.Kind == "func" && len(c.Params) == len(fn.Params) {
+			if c != nil && (c.Kind == "func" || c.Kind == "extern") && len(c.Params) == len(fn.Params) {
 				n = c.Params[i]
 			}
 			names = append(names, n)
@@ -908,12 +917,6 @@ func (x *Exec) applyRely(st *State, rs *RelySpec) {
 	pre := st.snapshot()
 	e.old = pre
 	e.oldWM = st.wmNow()
-	if rs.PreSnap != "" {
-		if fr.snaps == nil {
-			fr.snaps = map[string]map[string]Term{}
-		}
-		fr.snaps[rs.PreSnap] = pre
-	}
 	st.bumpWM()
 	for _, l := range x.locsOf(e, rs.Modifies) {
 		x.havocLoc(st, l)
